@@ -128,7 +128,8 @@ def atlas_schema() -> Schema:
         "xAOD::TrackParticle",
         [M("pt", "num"), M("eta", "num"), M("phi", "num"), M("d0", "num"), M("z0", "num"),
          M("charge", "num", "float", declared=True), M("nHits", "num", "int", declared=True),
-         M("nPix", "num", "int", declared=True, tree_type="double")],  # (a typed leaf one level down: 2-D columns of a declared tree type)
+         M("nPix", "num", "int", declared=True, tree_type="double"),  # (a typed leaf one level down: 2-D columns of a declared tree type)
+         M("hitChi2s", "vec", "float", declared=True)],  # (a vector one level down: flattening steps inside a per-object row)
     )
     for n in ("Electron", "Muon"):
         cl[f"xAOD::{n}"] = C(
